@@ -100,11 +100,11 @@ fn c11_df18() { check_format(6); }
 //@ harness bounded="filter lists of at most 2 entries"
 #[kani::proof]
 #[kani::unwind(4)]
-fn c11_df20() { check_format(7); }
+fn c11t_df20() { check_format(7); }
 //@ harness bounded="filter lists of at most 2 entries"
 #[kani::proof]
 #[kani::unwind(4)]
-fn c11_df21() { check_format(8); }
+fn c11t_df21() { check_format(8); }
 // ---- modular, unbounded in the filter lists: is_in against the CONTRACTS of its two private callees ----
 // aircraft_in / df_in are replaced by stand-ins returning an arbitrary verdict and recording what they
 // were asked; is_in must ask about the displayed address / displayed df and combine the verdicts by AND.
